@@ -218,7 +218,9 @@ def run_mixed(st, sub, enz, strings, scn):
             ms = [M(CircularRecord(Seq(x))) for x in strings[1:]]
         else:
             v = V(gen.contained(strings[0], conts[0], "v"))
-            ms = [M(gen.contained(x, conts[i + 1], "m%d" % i if idmode == "distinct" else "part")) for i, x in enumerate(strings[1:])]
+            odd = ["part{%d}", "{lib%d", "frag%d}", "100%%s-%d", "a b\t%d"]
+            ms = [M(gen.contained(x, conts[i + 1], ("m%d" % i) if idmode == "distinct" else ((odd[i % len(odd)] % i) if idmode == "odd" else "part")))
+                  for i, x in enumerate(strings[1:])]
     except Exception as ex:
         raise HarnessError("cannot build participants: {}: {}".format(type(ex).__name__, ex))
     o = asm.run_assemble(v, ms)
@@ -252,6 +254,8 @@ def unit_assembly(st, enz, tier):
             for perm in itertools.permutations(range(k)):
                 ss = [strings[0]] + [strings[1 + i] for i in perm]
                 run_mixed(st, "assembly", enz, ss, dict(family="assembly", enz=enz, strings=ss, states=list(combo), perm=list(perm)))
+                # the same mix under identifiers that hold characters with a meaning in format strings (braces, percent, blanks)
+                run_mixed(st, "assembly", enz, ss, dict(family="assembly", enz=enz, strings=ss, states=list(combo), perm=list(perm), ids="odd"))
                 # the same mix with the records in the other containers a user may hand over
                 for conts in (["mutable"] * (k + 1), ["annotated"] * (k + 1), ["mutable"] + ["seq"] * k, ["seq"] + ["annotated"] * k):
                     run_mixed(st, "assembly", enz, ss, dict(family="assembly", enz=enz, strings=ss, states=list(combo), perm=list(perm), containers=conts))
@@ -276,7 +280,7 @@ def unit_assembly(st, enz, tier):
         pool = [mods[0]] + [e_[0] for e_ in extras[:n_extra]]
         for perm in itertools.permutations(range(len(pool))):
             ss = [vec] + [pool[i] for i in perm]
-            for idmode in ("distinct", "same", "default"):
+            for idmode in ("distinct", "same", "default", "odd"):
                 run_mixed(st, "assembly", enz, ss, dict(family="assembly", enz=enz, strings=ss, leftovers=n_extra, ids=idmode))
                 st.goal("several-modules-left-over")
     st.sample(dict(family="assembly", enz=enz, states=["valid", "too-short"], k=1))
